@@ -12,6 +12,12 @@ source and `Props/C19.lean` proves `HasDerivAt` about exactly those terms) AND c
   natural      _NaturalToMuVarSqrt / _TrilNaturalToMuVarSqrt backward vs autograd of the explicit map from the
                expectation parameters, and vs the exact Lean model (naturalBackward, choleskyBackward over Rat);
   CIQ          _NgdInterpTerms.backward vs autograd of the explicit dense map, and vs the Lean model (data terms).
+wave 3:
+  translator   g5_natgrad regenerates the matrix backward passes (Gen/NaturalGrad.lean); drivers/C19.lean executes the
+               generated definitions next to the model (`GB`, `NGDX`): generated = model exactly, implementation = exact value
+               of the PROVED expressions (tril tangent, all three CIQ gradients incl. the KL terms, forward values);
+  inputs       d k / d x vs the proved closed forms G·(x1−x2)/ℓ² (RBF, Matérn 3/2, 5/2);
+  histories    forward; in-place edit of an OUTPUT or an INPUT of the Function; backward (`output_inplace`).
 """
 import json
 import math
